@@ -226,3 +226,14 @@ prop("C17", bounds=PQ_BOUNDS, outside=PQ_OUT,
          H("pq.VerifQueueReopen", "counters after reopen", "2 events x 3 sizes", quick={"params": {"events": 2, "nsizes": 3}}, thorough={"params": {"events": 2, "nsizes": 6}, "max_paths": 400000, "budget": "1500s"}),
          H("pq.VerifQueueFull", "counters on a full file and after draining", "3 sizes"),
      ])
+
+prop("C13", bounds=PQ_BOUNDS + "; one producer goroutine (Write, Next, optional Flush per event, final Flush) and one consumer goroutine (Begin, Next, Read, Done, ACK(1) per event, bounded polling) "
+            "under a symbolic scheduler: 1 preemption at sync operations (thorough: 2), context switches at blocking operations and polling yields, 2 events x 2 sizes (thorough: 3 events)",
+     outside=PQ_OUT + "; more preemptions; data races below the granularity of sync operations (argued from C02/C09: producer and consumer share only the File, whose transactions are serialised by the lock checked there)",
+     harnesses=[
+         HS(50, "pq.VerifQueueConcurrent", "consumer receives exactly the produced sequence in order, ACK never fails / never removes unread events or the writer's page, no deadlock, queue consistent afterwards",
+            "2 events, 1 preemption", quick={"params": {"events": 2, "preempt": 1, "nsizes": 2}, "max_paths": 200000},
+            thorough={"params": {"events": 2, "preempt": 2, "nsizes": 2}, "max_paths": 2000000, "budget": "1700s"}),
+         HS(50, "pq.VerifQueueConcurrent", "same", "3 events, 1 preemption", tiers=("thorough",),
+            thorough={"params": {"events": 3, "preempt": 1, "nsizes": 2}, "max_paths": 2000000, "budget": "1700s"}),
+     ])
